@@ -15,6 +15,10 @@ Client scripts (``run_ops``): {"method": m, "pid": p, "ops": [op...]} with
   ["resume"]         ``next()`` on the suspended iterator
   ["exch", name]     session.exchange(input) ; name = perturbation of the input schema (typed method) or None
   ["close"] ["cancel"]
+  ["cancel_fault", "lost"|"refused"]  HTTP only: cancel() while the next POST fails in the client -- "lost": the request is
+                     delivered to the server and the response is lost (exception while reading it); "refused": the
+                     request never leaves the client.  cancel() is documented best effort: it swallows the failure.
+  ["next"]           HTTP only: session.next_with_token(); a batch or ["done"] for (None, None)
 Every op yields its own event list (harness.interp event vocabulary); an RpcError is the event ["error", type, msg] and
 the script CONTINUES (the point of C10 is what a session does after cancel); any other exception ends the script.
 The result is (init_events, [(op_events, server_calls_during_op)...]).
@@ -218,6 +222,28 @@ def oracle_cast(name: str) -> dict[tuple[str, int], Any]:
     return out
 
 
+# --------------------------------------------------------------------------- fault injection (HTTP)
+class FlakyClient:
+    """Wraps the in-process HTTP client: the NEXT post() can be refused (never sent) or lose its response."""
+
+    def __init__(self, inner: Any) -> None:
+        self._inner = inner
+        self.prefix = getattr(inner, "prefix", "")
+        self.fault: str | None = None
+
+    def post(self, url: str, *, content: bytes, headers: dict[str, str]) -> Any:
+        fault, self.fault = self.fault, None
+        if fault == "refused":
+            raise ConnectionError("injected: connect failed, request never sent")
+        resp = self._inner.post(url, content=content, headers=headers)
+        if fault == "lost":
+            raise ConnectionError("injected: connection reset while reading the response")
+        return resp
+
+    def __getattr__(self, name: str) -> Any:
+        return getattr(self._inner, name)
+
+
 # --------------------------------------------------------------------------- transports
 _SERVER: list[RpcServer] = []
 _HTTP: dict[Any, Any] = {}
@@ -242,7 +268,9 @@ def connect(kind: str, cap: int | None = None) -> Iterator[tuple[Any, I.Recorder
             client = make_sync_client(server(), token_key=b"verif-c10-token-key-0123456789ab", max_response_bytes=cap, compression_level=None,
                                       enable_landing_page=False, enable_describe_page=False, enable_not_found_page=False)
             _HTTP[cap] = client
-        with http_connect(Life, client=client, on_log=rec.on_log, compression_level=None) as proxy:
+        flaky = FlakyClient(client)
+        with http_connect(Life, client=flaky, on_log=rec.on_log, compression_level=None) as proxy:
+            rec.flaky = flaky  # type: ignore[attr-defined]
             yield proxy, rec
         return
     from vgi_rpc.rpc import make_pipe_pair
@@ -314,6 +342,15 @@ def _play(proxy: Any, rec: I.Recorder, script: dict[str, Any], out: dict[str, An
                 sess.close()
             elif op[0] == "cancel":
                 sess.cancel()
+            elif op[0] == "cancel_fault":
+                rec.flaky.fault = op[1]  # type: ignore[attr-defined]
+                try:
+                    sess.cancel()
+                finally:
+                    rec.flaky.fault = None  # type: ignore[attr-defined]
+            elif op[0] == "next":
+                ab, _tok = sess.next_with_token()
+                ev.append(["done"] if ab is None else I._batch_event(ab))
             else:
                 raise ValueError(f"unknown op {op!r}")
         except RpcError as e:
